@@ -2,6 +2,8 @@ package vm
 
 import (
 	"golang.org/x/tools/go/ssa"
+
+	"symgo/term"
 )
 
 // OpaqueFloat is a float whose value the VM does not track (result of converting
@@ -11,6 +13,16 @@ import (
 type OpaqueFloat struct{ Bits int }
 
 func registerFloatIntrinsics() {
+	// classification of an opaque float is unknown: both answers are explored (a recorded,
+	// input-free choice), which over-approximates the real behaviour.
+	for _, name := range []string{"math.IsInf", "math.IsNaN"} {
+		intrinsics[name] = func(st *State, caller *frame, fn *ssa.Function, a []Value) Value {
+			if _, ok := a[0].(OpaqueFloat); ok {
+				return term.Bool(st.Choose(make([]*term.T, 2)) == 1)
+			}
+			return st.callBody(fn, a, caller)
+		}
+	}
 	// strconv.atof64 on symbolic text: the syntax decision is made by the real
 	// strconv.special / strconv.readFloat code (integer and byte logic), the numeric value is
 	// opaque. Range errors of symbolic literals are not modelled (listed as an assumption by
